@@ -398,12 +398,15 @@ fn check_seq(c: &SeqCase, info: &mut Info) -> Result<(), String> {
     Ok(())
 }
 
+crate::long_sub!(run_long_history, [9, 10]);
+
 pub fn def() -> PropDef {
     PropDef {
         id: "C14",
         rule: "u from the field-element generator plus 0, +-1, (G1) the SSWU-exceptional roots +-sqrt(-1/11), and inputs constructed by inverting the SSWU map on points of E' that are special for the later stages (rational kernel points of the 11-isogeny, small-order points, pure cofactor points [r]R - the composition sends all of them to the identity - and order-r points), and inputs constructed backwards (square roots) from structured intermediate values of the SSWU computation; pairs (u0, u1): independent, u1 = u0, u1 = -u0, and partners constructed by the model (solving two quadratics for Z u'^2) with u1 not in {+-u0} and sswu(u1) = sswu(u0) resp. = -sswu(u0). Oracle: model clear_cofactor(iso(sswu(u))) and clear_cofactor(iso(sswu(u0)) + iso(sswu(u1))) with + the model law on the target curve; model subgroup test; no panic. Non-trivial = pair with coinciding or inverse SSWU images, or an input that is a constructed SSWU preimage of a stage-special point or backwards from a structured intermediate value (N, Z u^2, u^2 or x1 of shape (c,0), (0,c), (c,c), (c,-c) in Fq2; the generator's structured Fq values in G1); distinct = distinct cases",
         needs_pairing: false,
         subs: vec![
+            Box::new(crate::engine::EnumSub { name: "long-history", rule: super::longhist::RULE, run: run_long_history, replay: super::longhist::replay, exhaustive: false }),
             Box::new(Sub { name: "g1", rule: "G1 map_to_curve and map2_to_curve vs model composition", quick: 3_750, thorough: 50_000, strategy: || boxed(map_case_strategy(0)), check: check_map }),
             Box::new(Sub { name: "g2", rule: "G2 map_to_curve and map2_to_curve vs model composition", quick: 1_000, thorough: 12_000, strategy: || boxed(map_case_strategy(1)), check: check_map }),
             Box::new(Sub { name: "related-sequences", rule: "2..4 calls back to back on the same u0 with related second inputs (u0, -u0, constructed partners, independent), each compared with the model (no dependence on earlier calls)", quick: 300, thorough: 8_000, strategy: || boxed(seq_strategy()), check: check_seq }),
